@@ -94,12 +94,73 @@ Proof. unfold pre_del. destruct (alias_targets s X n); auto. apply rem_fold_evs.
 Lemma pre_del_ftabs s X n : ftabs (pre_del s X n) = ftabs s.
 Proof. unfold pre_del. destruct (alias_targets s X n); auto. apply rem_fold_ftabs. Qed.
 
+(* ---------- the segment list of an index under delete-index ---------- *)
+(* deleting the collected keys one after the other removes EVERY rotated segment of (X, n), for any
+   number of segments: an event that survives the fold is not in a segment whose key was in the list *)
+Lemma del_seg_fold_spec X n ks : forall l e,
+  In e (fold_left (del_seg X n) ks l) <->
+  In e l /\ (in_seg_tab X n e = true -> ~ In (e_seg e) ks).
+Proof.
+  induction ks as [|k ks IH]; intros l e; cbn [fold_left].
+  - split; [intros H; split; auto | tauto].
+  - rewrite IH. unfold del_seg at 1. rewrite filter_In. split.
+    + intros [[Hl Hk] Hr]. split; auto. intros Hs [E|Hin]; [|apply Hr; auto].
+      subst k. rewrite Hs, N.eqb_refl in Hk. discriminate.
+    + intros [Hl Hr]. split; [split; auto|].
+      * destruct (in_seg_tab X n e) eqn:Hs; auto. cbn [andb].
+        destruct (e_seg e =? k) eqn:E; auto. apply N.eqb_eq in E. exfalso. apply (Hr eq_refl). left. auto.
+      * intros Hs Hin. apply (Hr Hs). right. exact Hin.
+Qed.
+
+Theorem delete_removes_every_segment : forall X n l e,
+  In e (fold_left (del_seg X n) (seg_keys X n l) l) -> in_seg_tab X n e = false.
+Proof.
+  intros X n l e H. apply del_seg_fold_spec in H. destruct H as [Hl Hr].
+  destruct (in_seg_tab X n e) eqn:Hs; auto. exfalso. apply (Hr eq_refl).
+  unfold seg_keys. apply in_map. apply filter_In. auto.
+Qed.
+
+(* ... and removes nothing else *)
+Theorem delete_segments_keeps_rest : forall X n l e,
+  In e l -> in_seg_tab X n e = false -> In e (fold_left (del_seg X n) (seg_keys X n l) l).
+Proof. intros X n l e Hl Hs. apply del_seg_fold_spec. split; auto. rewrite Hs. discriminate. Qed.
+
+(* documentation (seeded/C13b): ranging over the slice that is shifted by the deletions skips every
+   second segment as soon as there are three *)
+Lemma shifting_iteration_refuted :
+  exists keys, NoDup keys /\ shifting_survivors keys <> [].
+Proof.
+  exists [0; 1; 2]. split; [|vm_compute; discriminate].
+  repeat constructor; cbn; intuition discriminate.
+Qed.
+Example shifting_survivors_3_4_7 :
+  shifting_survivors [0;1;2] = [1] /\ shifting_survivors [0;1;2;3] = [1] /\
+  shifting_survivors [0;1;2;3;4;5;6] = [1;3;5] /\ shifting_survivors [0;1] = [].
+Proof. vm_compute. auto. Qed.
+
+Lemma drop_after_seg_fold X n ks : forall l,
+  filter (fun e => negb (e_rot e && name_eqb (e_tab e) n)) (fold_left (del_seg X n) ks l) =
+  filter (fun e => negb (e_rot e && name_eqb (e_tab e) n)) l.
+Proof.
+  induction ks as [|k ks IH]; intros l; cbn [fold_left]; auto.
+  rewrite IH. unfold del_seg. rewrite filter_filter. apply filter_ext. intros e.
+  unfold in_seg_tab.
+  destruct (e_rot e), (e_org e =? X), (name_eqb (e_tab e) n), (e_seg e =? k); reflexivity.
+Qed.
+
+(* the whole delete step on the stored events: every event of a table of that name goes (of every org) *)
+Lemma del_evs_eq X n l : del_evs X n l = filter (fun e => negb (name_eqb (e_tab e) n)) l.
+Proof.
+  unfold del_evs, meta_delete_table. rewrite drop_after_seg_fold, filter_filter.
+  apply filter_ext. intros e. destruct (e_rot e); cbn; auto. rewrite andb_true_r. reflexivity.
+Qed.
+
 Lemma del_one_evs X s nf n :
   evs (fst (del_one X (s, nf) n)) =
   if has_tab (ftabs s) X n then filter (fun e => negb (name_eqb (e_tab e) n)) (evs s) else evs s.
 Proof.
   unfold del_one. destruct (has_tab (ftabs s) X n); cbn [fst evs]; auto.
-  fold (pre_del s X n). rewrite pre_del_evs. reflexivity.
+  fold (pre_del s X n). rewrite del_evs_eq, pre_del_evs. reflexivity.
 Qed.
 
 Lemma del_one_ftabs X s nf n :
@@ -349,7 +410,7 @@ Proof.
   split; [vm_compute; tauto|].
   split; [intros H; apply mem_In in H; vm_compute in H; discriminate|].
   split; [vm_compute; reflexivity|].
-  exists (mkEv 1 w_aXb1 false 2). vm_compute. tauto.
+  exists (mkEv 1 w_aXb1 false 2 0). vm_compute. tauto.
 Qed.
 
 (* deleting index a of org 0 removes the events of index a of org 1 *)
@@ -358,7 +419,7 @@ Theorem delete_cross_org_refuted :
     plain t = true /\ In e (evs (run ops)) /\ e_org e <> X /\
     ~ In e (evs (run (ops ++ [Delete X t]))).
 Proof.
-  exists [Ingest 0 w_a [1]; Ingest 1 w_a [2]], 0, w_a, (mkEv 1 w_a false 2).
+  exists [Ingest 0 w_a [1]; Ingest 1 w_a [2]], 0, w_a, (mkEv 1 w_a false 2 0).
   split; [vm_compute; reflexivity|]. split; [vm_compute; tauto|]. split; [vm_compute; discriminate|].
   vm_compute. tauto.
 Qed.
@@ -370,7 +431,7 @@ Theorem delete_recreated_refuted :
     In e (evs (run (ops ++ [Delete X t]))) /\
     snd (step (run ops) (Delete X t)) = OCode 404.
 Proof.
-  exists [Ingest 0 w_a [1]; Delete 0 w_a; Ingest 0 w_a [2]], 0, w_a, (mkEv 0 w_a false 2).
+  exists [Ingest 0 w_a [1]; Delete 0 w_a; Ingest 0 w_a [2]], 0, w_a, (mkEv 0 w_a false 2 0).
   split; [vm_compute; reflexivity|]. split; [reflexivity|]. split; [reflexivity|].
   split; vm_compute; tauto.
 Qed.
@@ -550,7 +611,8 @@ Record sim (X : N) (s1 s2 : state) : Prop := mkSim {
   sim_am : filter (orgt X) (amem s1) = filter (orgt X) (amem s2);
   sim_ak : filter (orgp X) (akeys s1) = filter (orgp X) (akeys s2);
   sim_ev : filter (orge X) (evs s1) = filter (orge X) (evs s2);
-  sim_gh : filter (orgp X) (ghost s1) = filter (orgp X) (ghost s2) }.
+  sim_gh : filter (orgp X) (ghost s1) = filter (orgp X) (ghost s2);
+  sim_sn : segno s1 = segno s2 }.
 
 Lemma sim_refl X s : sim X s s.
 Proof. constructor; reflexivity. Qed.
@@ -745,7 +807,7 @@ Proof.
     rewrite (file_keys_sim X s1 s2 n H). apply rem_fold_cong. exact H. }
   split; auto. destruct P. constructor; cbn; auto.
   - rewrite !(filter_comm (orgp X)). congruence.
-  - rewrite !(filter_comm (orge X)). congruence.
+  - rewrite !del_evs_eq. rewrite !(filter_comm (orge X)). congruence.
   - rewrite !filter_app. rewrite sim_gh0. f_equal.
     rewrite !(filter_map_comm (fun e => (e_org e, e_tab e)) (orgp X) (orge X)) by (intros; reflexivity).
     rewrite !(filter_comm (orge X)). congruence.
@@ -820,6 +882,7 @@ Proof.
     rewrite !(filter_comm (orgt X)). rewrite FL. reflexivity.
   - apply rotate_evs_sim. apply (sim_ev _ _ _ H).
   - reflexivity.
+  - rewrite (sim_sn _ _ _ H). reflexivity.
 Qed.
 
 (* queries of X read only X's part *)
@@ -866,9 +929,12 @@ Proof.
   - destruct ids as [|i0 ids0]; [split; auto|]. cbn [fst snd]. split; auto.
     unfold resolve. rewrite (alias_targets_sim X s1 s2 idx H).
     set (t := match alias_targets s2 X idx with i :: _ => i | [] => idx end).
-    pose proof (add_tab_cong X s1 s2 t H) as A. destruct A. constructor; cbn; auto.
-    rewrite !filter_app. rewrite sim_ev0. reflexivity.
-  - split; auto. destruct H. constructor; cbn; auto. apply rotate_evs_sim. exact sim_ev0.
+    pose proof (add_tab_cong X s1 s2 t H) as A. destruct A.
+    constructor; cbn [ftabs mtabs adirs afile amem akeys evs ghost segno]; auto.
+    rewrite !filter_app. rewrite sim_ev0, sim_sn0. reflexivity.
+  - split; auto. destruct H. constructor; cbn [ftabs mtabs adirs afile amem akeys evs ghost segno]; auto.
+    + apply rotate_evs_sim. exact sim_ev0.
+    + rewrite sim_sn0. reflexivity.
   - split; auto. destruct H. constructor; cbn; auto. rewrite !existsb_app. cbn. rewrite N.eqb_refl, !orb_true_r. reflexivity.
   - split; auto. apply add_alias_cong. exact H.
   - split; auto. apply rem_alias_cong. exact H.
